@@ -223,8 +223,25 @@ def real_stream(run):
         nr = rng.randint(3, 40)
         cut = round(rng.uniform(2.0, 12.0), rng.choice([1, 2, 3]))
         pots = [real_potential(rng) for _ in range(rng.randint(1, 3))]
-        ps = [Potential("A%d" % j, "B", f) for j, (desc, f, fref) in enumerate(pots)]
+        hs = [None] * len(pots)
+        if i % 4 == 0:
+            # a derivative-less well on a large energy offset, tabulated with a user-chosen differentiation step (Potential(..., h=H)): the central
+            # difference of a quadratic is exact for every H (theorem C01_numderiv_quadratic) and its round-off is ~ 1e6*eps/H, i.e. far below the printed
+            # precision for the H asked for but visible (~1e-4) if the requested step is dropped in favour of the default 1e-6 (seed C01_5)
+            k_, r0_, off_ = round(rng.uniform(0.5, 8.0), 2), round(rng.uniform(1.0, 4.0), 2), float(rng.choice([1e5, 1e6, 4e6]))
+            pots.append(("well%g+%g(r-%g)^2,h" % (off_, k_, r0_), (lambda r, k_=k_, r0_=r0_, off_=off_: off_ + k_ * (r - r0_) ** 2), (lambda r, k_=k_, r0_=r0_: 2.0 * k_ * (r - r0_))))
+            hs.append(rng.choice([0.05, 0.1, 0.25]))
+        ps = [Potential("A%d" % j, "B", f) if h is None else Potential("A%d" % j, "B", f, h) for j, ((desc, f, fref), h) in enumerate(zip(pots, hs))]
         s = io.StringIO()
+        if i % 8 == 1 and len(ps) >= 1:
+            # a write that fails part-way (a function leaving its domain), after which the corrected model is written to the SAME stream: the stream must
+            # then hold exactly one block per potential of that model (seed C01_6; the absence of partial output itself is property C17)
+            def broken(r):
+                raise ValueError("outside the domain")
+            try:
+                LAMMPS_PairTabulation(ps + [Potential("Zq", "B", broken)], cut, nr).write(s)
+            except ValueError:
+                pass
         LAMMPS_PairTabulation(ps, cut, nr).write(s)
         blocks = lammps_tokens(s.getvalue(), "raw", None)
         run.case(key=("real", nr, cut, tuple(d for d, _, _ in pots)), kind="real")
@@ -253,6 +270,8 @@ def real_stream(run):
                     problem = "%s row %d r=%r: energy printed %s, callable gives %r" % (desc, nrow, rf, e, ev)
                     break
                 tol_f = 0.51e-8 + 1e-5 * max(1.0, abs(slope)) + 1e-9 * abs(ev)
+                if desc.endswith(",h"):
+                    tol_f = 0.51e-8 + 1e-6        # exact central difference of a quadratic with the requested step: round-off only
                 if abs(float(Fr(fo)) + slope) > tol_f:
                     problem = "%s row %d r=%r: force printed %s, -dE/dr = %r" % (desc, nrow, rf, fo, -slope)
                     break
